@@ -280,17 +280,24 @@ func (s *Store) LoadCheckpoint() error {
 			return fmt.Errorf("restore checkpoints from savepoint: %v", err)
 		}
 	} else {
-		// For a new job, check the file store for first (latest) snapshot file.
-		// Checkpoint IDs are encoded so that files will be in reverse chronological
-		// order.
+		// For a new job, check the file store for the latest snapshot file: the
+		// one with the highest checkpoint ID. The order of the listing can't be
+		// used for that because the encoded IDs don't sort numerically.
 		var latestCheckpointFile string
+		var latestCheckpointID uint64
 		for filePath, err := range s.fileStore.List() {
 			if err != nil {
 				return err
 			}
-			if filepath.Ext(filePath) == ".snapshot" {
-				latestCheckpointFile = filePath
-				break
+			if filepath.Ext(filePath) != ".snapshot" {
+				continue
+			}
+			id, ok := checkpointIDFromPath(filePath)
+			if !ok {
+				continue
+			}
+			if latestCheckpointFile == "" || id > latestCheckpointID {
+				latestCheckpointFile, latestCheckpointID = filePath, id
 			}
 		}
 
